@@ -210,16 +210,17 @@ def _mapper_signal_tables(mapper, signal_scale):
 
 def _closed_obj(mapper, case, name, tables, signal_scale):
     """the linear object with every table the model can compute itself left out: a rectangular mesh is
-    given by its shape only (the model runs its own `rectangular_neighbors_from`), the pixel signals by
-    the mapper tables + adapt image (the model runs its own `adaptive_pixel_signals_from`)"""
+    given by its shape only (the model runs its own `rectangular_neighbors_from`), a Delaunay mesh by scipy's
+    CSR pair (the model runs its own `Mesh2DDelaunay.neighbors`), the pixel signals by the mapper tables +
+    adapt image (the model runs its own `adaptive_pixel_signals_from`)"""
     rect = case["source"] == "rect"
-    if not rect and name not in SIGNAL_SCHEMES:
-        return None
     c = {"params": tables["params"], "points": tables["points"]}
     if rect:
         c["mesh_shape"] = [int(v) for v in case["mesh_shape"]]
     else:
-        c["neighbors"], c["sizes"] = tables["neighbors"], tables["sizes"]
+        # Delaunay: scipy's CSR pair is the input (Qhull is not modelled), the table is the model's own
+        indptr, indices = mapper.source_plane_mesh_grid.delaunay.vertex_neighbor_vertices
+        c["csr"] = {"indptr": [int(v) for v in indptr], "indices": [int(v) for v in indices]}
     if name in SIGNAL_SCHEMES:
         c["mapper"] = _mapper_signal_tables(mapper, signal_scale)
     if "split" in tables:
@@ -360,8 +361,9 @@ class C07(PropertyCheck):
         "positive-definiteness of both kernel matrices is proved over the reals (exact arithmetic); additionally tested "
         "per case by exact rational LDL^T (n <= 14) or float Cholesky of the implementation's covariance matrix",
         "scipy.linalg.block_diag, numpy.delete (modelled by Spec.blockDiag / Spec.deleteIdx; compared per case)",
-        "scipy.spatial.Delaunay.vertex_neighbor_vertices supplies the Delaunay neighbour tables (inputs of the model; "
-        "their symmetry is checked per case by the oracle); rectangular tables are the model's own "
+        "scipy.spatial.Delaunay.vertex_neighbor_vertices (Qhull) is an input of the model; its contract (CSR slices = "
+        "edge relation of `simplices`, the hypothesis of C07.delaunay_neighbors_wellformed) is checked exactly per case; "
+        "the Delaunay table built from it and the rectangular tables are the model's own "
         "(Impl.rectNeighbors, proved to be the 4-connectivity) and compared with the code on every shape",
         "`** signal_scale` in adaptive_pixel_signals_from: exact rational power for natural-number scales, numpy's "
         "double-precision power (Float.pow on the exactly computed normalised mean) otherwise; the theorems need "
@@ -749,6 +751,9 @@ class C07(PropertyCheck):
                "inputs": {"tables": tables, "args": args}}
         if closed is not None:
             obs["inputs"]["closed"] = closed
+            if "csr" in closed:
+                obs["inputs"]["simplices"] = [[int(v) for v in sx]
+                                              for sx in mapper.source_plane_mesh_grid.delaunay.simplices]
         if name in KERNEL_SCHEMES:
             from autoarray.inversion.regularization import gaussian_kernel, exponential_kernel
 
@@ -1208,6 +1213,19 @@ class C07(PropertyCheck):
                 return False, "the mesh's neighbour table is not symmetric"
             if real_mesh and (any(a == b for a, b in pairs) or any(c > 1 for c in cnt.values())):
                 return False, "the mesh's neighbour table has a self-neighbour or a repeated neighbour"
+            csr = (inp.get("closed") or {}).get("csr")
+            if csr is not None and "simplices" in inp:
+                # Qhull's contract, the hypothesis of C07.delaunay_neighbors_wellformed: complete slices, slice k =
+                # the vertices sharing a simplex with k, none twice
+                ip, ix = csr["indptr"], csr["indices"]
+                if len(ip) != n + 1 or ip[0] != 0 or ip[-1] != len(ix) or any(ip[k] > ip[k + 1] for k in range(n)):
+                    return False, "scipy's CSR index pointer is not a complete partition of the index array"
+                for k in range(n):
+                    sl = ix[ip[k]:ip[k + 1]]
+                    e = sorted({j for sx in inp["simplices"] if k in sx for j in sx if j != k})
+                    if sorted(sl) != e:
+                        return False, (f"Qhull contract: CSR slice of vertex {k} is {sorted(sl)}, the vertices sharing a "
+                                       f"simplex with it are {e}")
         # ---------------------------------------------------------------- symmetry
         exact_sym = name not in KERNEL_SCHEMES
         need_sym = sym_tables or name not in ("Constant", "ConstantZeroth")
@@ -1570,6 +1588,9 @@ class C07(PropertyCheck):
             return ["C07.adaptive_scheme_uses_reported_weights", "C07.pixel_signals_accumulate_spec",
                     "C07.pixel_signals_spec", "C07.pixel_signals_in_unit_interval", "C07.adaptive_weights_spec",
                     "C07.adaptive_brightness_weights_pos"]
+        if kind == "scheme" and case.get("source") == "delaunay" and case.get("scheme") in ("Constant", "ConstantZeroth"):
+            return ["C07.delaunay_neighbors_wellformed", "C07.delaunay_constant_spec", "C07.constant_quad_pairs",
+                    "C07.constant_posdef"]
         if kind == "rect_neighbors":
             return ["C07.rect_neighbors_wellformed", "C07.rect_pairs_are_adjacent_pixels", "C07.rect_constant_spec",
                     "C07.rect_constant_zeroth_spec", "C07.rect_weighted_spec", "C07.rect_adaptive_brightness_spec"]
